@@ -37,6 +37,10 @@ run_directed = directed.run
 
 
 def cases(tier, rng):
+    for c in directed.reserved_placeholders_without_var_keyword_cases():
+        yield "directed-reserved-placeholders-without-var-keyword", c
+    for c in directed.coroutine_invariant_spellings_cases():
+        yield "directed-coroutine-invariant-spellings", c
     for c in directed.reserved_keyword_after_valid_calls_cases():
         yield "directed-reserved-keyword-after-valid-calls", c
     for deco in ("require", "ensure", "invariant"):
